@@ -936,6 +936,11 @@ fn call_expr_to_asg_texpr(call_expr: synast::CallExpr, context: &mut Context) ->
         .arg_list()
         .map(|ex| expression_list_to_asg_texpr(ex.expression_list().unwrap(), context));
     let subroutine_id = call_expr.identifier();
+    if subroutine_id.is_none() {
+        // The callee is an expression other than a name.
+        context.insert_error(NotImplementedError, &call_expr);
+        return asg::TExpr::new(asg::Expr::NullExpr, Type::Undefined);
+    }
     let subroutine_name = call_expr.identifier().unwrap().string();
     let (symbol_result, call_type) = context
         .lookup_symbol(subroutine_name.as_ref(), subroutine_id.as_ref().unwrap())
